@@ -467,10 +467,31 @@ def run_relay_check(work, prop, tier, replay=None):
                 hist_by_id[fr["hid"]] = sc2
     if prop == "C02" and not replay:
         # wire level: relays to a recipient whose connection is backed up must still arrive exactly once, in order
-        l2f = l2_backpressure(work, tier)
+        try:
+            l2f = l2_backpressure(work, tier)
+        except Inconclusive as e:
+            # a stage that could not be completed must not hide what the completed stages have found
+            if not fails:
+                raise
+            work.log("wire-level stage skipped: %s" % e)
+            l2f = []
         for f in l2f:
             fails.append(f)
             hist_by_id[f["hid"]] = f["scenario"]
+    if prop == "C04" and not replay:
+        # receipt requests are requests too: each is answered exactly once with the answer the protocol defines
+        # (Receipt.tla / ReceiptTrace, the same records C19 is judged on)
+        import receipt_check
+        rfails, rstats = receipt_check.answer_stage(work, tier)
+        work.log("receipt requests: %d submissions (%d accepted, %d bad request, %d too busy), %d not answered as specified" % (
+            rstats["submits"], rstats.get("accepted", 0), rstats.get("bad_request", 0), rstats.get("too_busy", 0), len(rfails)))
+        if rstats["submits"] < 50 or rstats.get("bad_request", 0) < 5:
+            raise Inconclusive("receipt stage of C04 exercised too little: %s" % rstats)
+        for f in rfails:
+            hid = "receipt-%s" % f["rid"]
+            fails.append(dict(hid=hid, sig=dict(inv="receipt_answered_once", step="Req", kind="Receipt:" + str(f["rec"].get("cls")), ret=f["rec"].get("ret")),
+                              rec=dict(f["rec"], i=-1), scenario=f["scenario"]))
+            hist_by_id[hid] = dict(f["scenario"] or {}, level="receipt", note="replay with: bin/check C19 quick --replay <this file>")
     rconc = None
     if prop in ("C01", "C02", "C07", "C10", "C11") and not replay:
         # lock-grain specification (RelayConc.tla): exhaustive TLC, witnesses of the listed findings forced on the real
